@@ -249,6 +249,24 @@ def classHours (l : List (Herd α)) (s : Size) : α :=
 def hoursBySize (l : List (Herd α)) : Hours α :=
   ⟨classHours l .small, classHours l .medium, classHours l .large⟩
 
+/-- `calculate_slaughter_rate`: what the hours left in the size class allow -/
+def slaughterRate (cur hours rem : α) : α :=
+  if 0 < rem then pmin (cur * hours) rem / hours else 0
+
+/-- `calculate_animal_population`: (actual slaughter, population after slaughter) -/
+def actualSlaughter (pre target rate : α) : α × α :=
+  let a0 : α := if pre < target then 0 else if pre - rate < target then pre - target else rate
+  let a1 : α := if a0 < 0 then 0 else a0
+  let p1 := pre - a1
+  if p1 < 0 then (0, 0) else (a1, p1)
+
+/-- `calculate_pregnant_slaughter`: (slaughtered pregnant animals, pregnant animals left) -/
+def pregSlaughter (psf pt0 odr actual : α) : α × α :=
+  let slp : α := if psf ≤ 0 ∧ 0 ≤ psf then 0 else if psf * pt0 < actual then psf * pt0 else actual
+  let pt1 : α := if psf ≤ 0 ∧ 0 ≤ psf then pt0
+    else if psf * pt0 < actual then pt0 - (slp + odr * pt0) else pt0 - slp
+  (if 0 ≤ slp then slp else 0, if 0 ≤ pt1 then pt1 else 0)
+
 /-- `calculate_change_in_population` for one herd, given the transfer it receives and the hours
     its size class has left; returns the record and the hours left afterwards (before the assert). -/
 def slaughterOne (first : Bool) (tr : α) (b : WB α) (rem : α) : WC α × α :=
@@ -259,28 +277,14 @@ def slaughterOne (first : Bool) (tr : α) (b : WB α) (rem : α) : WC α × α :
   -- calculate_other_deaths
   let otherDeath := st.pop * sp.odr
   -- calculate_slaughter_rate
-  let cur := if first then sp.baseline else st.slaughterLast
-  let rate : α := if 0 < rem then pmin (cur * sp.hours) rem / sp.hours else 0
+  let rate := slaughterRate (if first then sp.baseline else st.slaughterLast) sp.hours rem
   -- calculate_animal_population
-  let deaths := otherDeath + b.retiring
-  let pre := st.pop - deaths + additive
-  let a0 : α := if pre < sp.target then 0 else if pre - rate < sp.target then pre - sp.target else rate
-  let a1 : α := if a0 < 0 then 0 else a0
-  let p1 := pre - a1
-  let actual : α := if p1 < 0 then 0 else a1
-  let popAfter : α := if p1 < 0 then 0 else p1
-  let rem' := rem - actual * sp.hours
-  -- calculate_pregnant_slaughter
-  let pt0 := b.pregTotalIn
-  let psfz : Bool := decide (b.psf ≤ 0 ∧ 0 ≤ b.psf)
-  let lt : Bool := decide (b.psf * pt0 < actual)
-  let slp : α := if psfz then 0 else if lt then b.psf * pt0 else actual
-  let pt1 : α := if psfz then pt0 else if lt then pt0 - (slp + sp.odr * pt0) else pt0 - slp
-  let pt2 : α := if 0 ≤ pt1 then pt1 else 0
-  let slp2 : α := if 0 ≤ slp then slp else 0
-  -- calculate_pregnant_animals_birthing
-  let pbNew := pt2 / sp.gestation
-  (⟨b, transferPop, additive, otherDeath, rate, pre, actual, popAfter, slp2, pt2, pbNew⟩, rem')
+  let pre := st.pop - (otherDeath + b.retiring) + additive
+  let ap := actualSlaughter pre sp.target rate
+  -- calculate_pregnant_slaughter, calculate_pregnant_animals_birthing
+  let ps := pregSlaughter b.psf b.pregTotalIn sp.odr ap.1
+  (⟨b, transferPop, additive, otherDeath, rate, pre, ap.1, ap.2, ps.1, ps.2, ps.2 / sp.gestation⟩,
+   rem - ap.1 * sp.hours)
 
 /-- second species loop of `main`: in list order, each herd draws on the hours of its size class -/
 def slaughterAll (first : Bool) (all : List (WB α)) : Hours α → List (WB α) → Except String (List (WC α))
@@ -295,42 +299,51 @@ def slaughterAll (first : Bool) (all : List (WB α)) : Hours α → List (WB α)
       | .error e => .error e
     else .error "hours"
 
+/-- the three home-kill draws on the month's home-kill hours
+    (`calculate_other_death_homekill_head`, `calculate_healthy_homekill_head`,
+    `calculate_starving_pop_post_slaughter_healthy_homekill`, `calculate_starving_homekill_head`):
+    (hkOther, hkHealthy, starvingPost, hkStarving, budget left) -/
+def homekill (cn : Country α) (hours otherDeath popAfter starvingPre slaughter budget : α) :
+    α × α × α × α × α :=
+  let hkOther := pmin (otherDeath * cn.odhr) (budget / hours)
+  let b1 := budget - hkOther * hours
+  let hkHealthy := pmin (cn.hkf * popAfter) (b1 / hours)
+  let b2 := b1 - hkHealthy * hours
+  let sp0 := starvingPre - slaughter - hkHealthy
+  let starvingPost : α := if sp0 < 0 then 0 else sp0
+  let cap0 := b2 / hours
+  let cap : α := if cap0 < 0 then 0 else cap0
+  let hkStarving := pmin starvingPost cap
+  (hkOther, hkHealthy, starvingPost, hkStarving, b2 - hkStarving * hours)
+
+/-- `other_death_pregnant_adjustment` (skipped when the scenario looks like a baseline) -/
+def pregAdjust (rib tpf ods odTotal pop x : α) : α :=
+  if (rib ≤ 0 ∧ 0 ≤ rib) ∧ (tpf ≤ 1 ∧ 1 ≤ tpf) ∧ ods < 10.0 then x
+  else
+    let frac : α := if pop ≤ 0 ∧ 0 ≤ pop then 1 else odTotal / pop
+    let y := x - x * frac
+    if y < 0 then 0 else y
+
 /-- third species loop of `main` for one herd; `budget` = `homekill_hours_budget[-1]` -/
 def finishOne (cn : Country α) (c : WC α) (budget : α) : WD α × α :=
   let sp := c.b.a.h.sp
   let st := c.b.a.h.st
-  -- calculate_other_death_homekill_head
-  let hkOther := pmin (c.otherDeath * cn.odhr) (budget / sp.hours)
-  let b1 := budget - hkOther * sp.hours
-  -- calculate_healthy_homekill_head
-  let hkHealthy := pmin (cn.hkf * c.popAfter) (b1 / sp.hours)
-  let b2 := b1 - hkHealthy * sp.hours
-  -- calculate_starving_pop_post_slaughter_healthy_homekill
-  let sp0 := c.b.a.starvingPre - c.slaughter - hkHealthy
-  let starvingPost : α := if sp0 < 0 then 0 else sp0
-  -- calculate_starving_homekill_head
-  let cap0 := b2 / sp.hours
-  let cap : α := if cap0 < 0 then 0 else cap0
-  let hkStarving := pmin starvingPost cap
-  let b3 := b2 - hkStarving * sp.hours
-  -- calculate_starving_pop_post_all_slaughter_homekill
-  let popStarving := pmax (starvingPost - hkStarving) 0
-  -- calculate_starving_other_death_head
-  let ods := popStarving * sp.sdf
+  let hk := homekill cn sp.hours c.otherDeath c.popAfter c.b.a.starvingPre c.slaughter budget
+  let hkOther := hk.1
+  let hkHealthy := hk.2.1
+  let starvingPost := hk.2.2.1
+  let hkStarving := hk.2.2.2.1
+  -- calculate_starving_pop_post_all_slaughter_homekill, calculate_starving_other_death_head
+  let ods := pmax (starvingPost - hkStarving) 0 * sp.sdf
   let odTotal := ods + c.otherDeath
-  -- other_death_pregnant_adjustment unless the scenario looks like a baseline
-  let skip : Bool := decide ((sp.rib ≤ 0 ∧ 0 ≤ sp.rib) ∧ (sp.tpf ≤ 1 ∧ 1 ≤ sp.tpf) ∧ ods < 10.0)
-  let frac : α := if st.pop ≤ 0 ∧ 0 ≤ st.pop then 1 else odTotal / st.pop
-  let ptA := c.pregTotal - c.pregTotal * frac
-  let pbA := c.pregBirthing - c.pregBirthing * frac
-  let pt : α := if skip then c.pregTotal else if ptA < 0 then 0 else ptA
-  let pb : α := if skip then c.pregBirthing else if pbA < 0 then 0 else pbA
+  let pt := pregAdjust sp.rib sp.tpf ods odTotal st.pop c.pregTotal
+  let pb := pregAdjust sp.rib sp.tpf ods odTotal st.pop c.pregBirthing
   -- total_homekill
   let hkTotal := hkOther + hkHealthy + hkStarving
   -- calculate_final_population
   let pe0 := c.popAfter - (ods + hkHealthy + hkStarving)
-  let popEnd : α := if pe0 < 0 then 0 else pe0
-  (⟨c, hkOther, hkHealthy, hkStarving, hkTotal, starvingPost, ods, odTotal, pt, pb, popEnd⟩, b3)
+  (⟨c, hkOther, hkHealthy, hkStarving, hkTotal, starvingPost, ods, odTotal, pt, pb,
+    if pe0 < 0 then 0 else pe0⟩, hk.2.2.2.2)
 
 def finishAll (cn : Country α) : α → List (WC α) → Except String (List (WD α))
   | _, [] => .ok []
